@@ -26,26 +26,26 @@ def _run_one(args):
     tp = os.path.join(tmpd, "th_%s.trace" % tag)
     with open(sp, "w") as f:
         f.write(text)
-    env = dict(os.environ, OPENSMT_VERIF_TRACE=tp)
-    out, err, rc = "", "", 0
-    for attempt in range(60):
-        try:
-            p = subprocess.run([binary, sp], stdout=subprocess.PIPE, stderr=subprocess.PIPE, timeout=timeout, env=env)
-            out, err, rc = p.stdout.decode(errors="replace"), p.stderr.decode(errors="replace"), p.returncode
-        except subprocess.TimeoutExpired:
-            rc, err = -9, "timeout"
-        except OSError as e:
-            # the binary is being relinked by a concurrent incremental build of the same tree: wait for it
-            if attempt == 59:
-                raise
-            import time
-            time.sleep(2)
-            if os.path.exists(tp):
-                os.remove(tp)
-            continue
-        break
     trace = ""
     try:
+        env = dict(os.environ, OPENSMT_VERIF_TRACE=tp)
+        out, err, rc = "", "", 0
+        for attempt in range(60):
+            try:
+                p = subprocess.run([binary, sp], stdout=subprocess.PIPE, stderr=subprocess.PIPE, timeout=timeout, env=env)
+                out, err, rc = p.stdout.decode(errors="replace"), p.stderr.decode(errors="replace"), p.returncode
+            except subprocess.TimeoutExpired:
+                rc, err = -9, "timeout"
+            except OSError as e:
+                # the binary is being relinked by a concurrent incremental build of the same tree: wait for it
+                if attempt == 59:
+                    raise
+                import time
+                time.sleep(2)
+                if os.path.exists(tp):
+                    os.remove(tp)
+                continue
+            break
         if os.path.exists(tp):
             with open(tp, errors="replace") as f:
                 trace = f.read(64 * 1024 * 1024)
